@@ -496,7 +496,7 @@ func (t Token) Int() (int64, error) {
 			switch i64 := f64toi64(f64); {
 			case math.IsNaN(f64), math.Trunc(f64) != f64:
 				return i64, &numError{accessor: "Int", value: t.String(), err: strconv.ErrSyntax}
-			case (i64 == minInt64 && f64 < minInt64) || (i64 == maxInt64 && f64 > maxInt64):
+			case (i64 == minInt64 && f64 < minInt64) || (i64 == maxInt64 && f64 >= maxInt64+1):
 				return i64, &numError{accessor: "Int", value: t.String(), err: strconv.ErrRange}
 			default:
 				return i64, nil
@@ -575,7 +575,7 @@ func (t Token) Uint() (uint64, error) {
 			switch u64 := f64tou64(f64); {
 			case math.IsNaN(f64), math.Trunc(f64) != f64, math.Signbit(f64):
 				return u64, &numError{accessor: "Uint", value: t.String(), err: strconv.ErrSyntax}
-			case (u64 == minUint64 && f64 < minUint64) || (u64 == maxUint64 && f64 > maxUint64):
+			case (u64 == minUint64 && f64 < minUint64) || (u64 == maxUint64 && f64 >= maxUint64+1):
 				return u64, &numError{accessor: "Uint", value: t.String(), err: strconv.ErrRange}
 			default:
 				return u64, nil
